@@ -505,6 +505,7 @@ class Inliner:
     def _process_block(self, fi, stmts: List[ast.stmt]) -> List[ast.stmt]:
         out: List[ast.stmt] = []
         for st in stmts:
+            st = self._lower_conditional(fi, st)
             # recurse into compound statements first
             for fld in ("body", "orelse", "finalbody"):
                 if hasattr(st, fld) and isinstance(getattr(st, fld), list) and not isinstance(st, (ast.FunctionDef, ast.AsyncFunctionDef, ast.ClassDef)):
@@ -641,18 +642,51 @@ class Inliner:
             out.append(st)
         return out
 
+    def _statement_callee(self, fi, e: ast.AST) -> bool:
+        """Does expression e contain a call of a new helper whose body has statements (not just `return <expr>`)?"""
+        for c in ast.walk(e):
+            if isinstance(c, ast.Call):
+                r = self._callee(fi, c, multi=True)
+                if r is not None:
+                    body = _body_without_doc(r[0].node)
+                    if not (len(body) == 1 and isinstance(body[0], ast.Return)):
+                        return True
+        return False
+
+    def _lower_conditional(self, fi, st: ast.stmt) -> ast.stmt:
+        """`T = (helper(...) if c else e)` with a statement-bodied helper: the helper's statements run only when c holds, so
+        the statement is split into `if c: T = helper(...)` / `else: T = e` before anything is absorbed."""
+        v = getattr(st, "value", None)
+        if not (isinstance(st, (ast.Assign, ast.AnnAssign, ast.Return, ast.Expr)) and isinstance(v, ast.IfExp)):
+            return st
+        if not (self._statement_callee(fi, v.body) or self._statement_callee(fi, v.orelse)) or self._statement_callee(fi, v.test):
+            return st
+
+        def arm(val):
+            a = clone(st)
+            a.value = val
+            return ast.copy_location(a, st)
+
+        new = ast.copy_location(ast.If(test=v.test, body=[arm(v.body)], orelse=[arm(v.orelse)]), st)
+        self.count += 1
+        return new
+
     def _rewrite_expr(self, fi, e: ast.AST, hoisted: List[ast.stmt], top: bool, in_scope: bool = False) -> ast.AST:
         """Replace inlinable calls inside expression e; statements of the callee are appended to `hoisted`.
-        Inside comprehensions/lambdas (`in_scope`) only expression-bodied callees are substituted."""
+        Inside comprehensions/lambdas and in conditionally evaluated positions - the arms of a conditional expression,
+        the later operands of and/or - (`in_scope`) only expression-bodied callees are substituted: hoisting the
+        statements of such a call in front of the host statement would run them unconditionally."""
         if isinstance(e, (ast.ListComp, ast.SetComp, ast.DictComp, ast.GeneratorExp, ast.Lambda)):
             inner = True
         else:
             inner = in_scope
         for fld, val in ast.iter_fields(e):
             if isinstance(val, ast.AST):
-                setattr(e, fld, self._rewrite_expr(fi, val, hoisted, False, inner))
+                cond_pos = isinstance(e, ast.IfExp) and fld in ("body", "orelse")
+                setattr(e, fld, self._rewrite_expr(fi, val, hoisted, False, inner or cond_pos))
             elif isinstance(val, list):
-                setattr(e, fld, [self._rewrite_expr(fi, v, hoisted, False, inner) if isinstance(v, ast.AST) else v for v in val])
+                late = isinstance(e, ast.BoolOp) and fld == "values"
+                setattr(e, fld, [self._rewrite_expr(fi, v, hoisted, False, inner or (late and k_ > 0)) if isinstance(v, ast.AST) else v for k_, v in enumerate(val)])
         if isinstance(e, ast.Call):
             r = self._callee(fi, e)
             if r is not None:
